@@ -523,6 +523,36 @@ func c06Run(c *C) {
 				c.Cover("options_replaced_after_compile")
 			}
 		}
+		// ... and a template that was EXECUTED with the options on renders like one compiled with default options as soon
+		// as they are switched off again (fields changed in place, or the Options value replaced), and like its first
+		// execution when they are switched on once more: what the options strip is decided per execution
+		{
+			oset, _ := newSet(emptySetFiles)
+			if otpl, oerr := oset.FromString(src.String()); oerr == nil {
+				tb, ls := r.Bool(), r.Bool()
+				if !tb && !ls {
+					tb = true
+				}
+				inPlace := r.Bool()
+				otpl.Options.TrimBlocks, otpl.Options.LStripBlocks = tb, ls
+				onOut, onErr := c01Exec(otpl, ctx, r.Intn(4))
+				if inPlace {
+					otpl.Options.TrimBlocks, otpl.Options.LStripBlocks = false, false
+				} else {
+					otpl.Options = &pongo2.Options{}
+				}
+				offOut, offErr := c01Exec(otpl, ctx, r.Intn(4))
+				otpl.Options.TrimBlocks, otpl.Options.LStripBlocks = tb, ls
+				on2Out, on2Err := c01Exec(otpl, ctx, r.Intn(4))
+				c.Eval(3)
+				if offErr != nil || offOut != whole || errStr(onErr) != errStr(on2Err) || onOut != on2Out {
+					c.Fail("concatenation", D{"source": q(src.String()), "TrimBlocks": tb, "LStripBlocks": ls, "options_changed_in_place": inPlace, "output_options_on": q(onOut), "output_options_off_again": q(offOut), "output_options_on_again": q(on2Out),
+						"output_with_default_options": q(whole), "fragments": kinds, "why": "one compiled template executed with the options on, off, on: off must equal a rendering with default options, the two on-renderings must be equal", "error": errStr(offErr)})
+					return
+				}
+				c.Cover("options_toggled_between_executions")
+			}
+		}
 		c.Nontrivial("seq:" + src.String())
 		if c.WantSample() && len(src.String()) < 160 {
 			c.Sample(D{"kind": "fragments", "source": q(src.String()), "output": q(whole), "fragments": kinds})
